@@ -305,6 +305,13 @@ class HTTPScriptPeer(Peer):
 
     async def _serve(self, conn, resp, idx):
         pieces = resp['pieces'](self.requests[-1][1]) if callable(resp['pieces']) else resp['pieces']
+        fault = resp.get('fault')
+        if fault:
+            # transport-level failure after `at` pieces: the reader (and later writes) raise the given exception
+            await conn.feed_pieces(pieces[:fault['at']], self.settle)
+            conn.reset(fault['exc'])
+            self.feed_done[idx] = True
+            return
         ok = await conn.feed_pieces(pieces, self.settle)
         then = resp.get('then', 'keep')
         if ok:
